@@ -301,6 +301,10 @@ def run(cx):
     inst_handle_datagram(cx, "C04.o")
     from props.C06 import inst_release
     inst_release(cx, "C04.p")
+    from props.C07 import inst_config_mirror
+    inst_config_mirror(cx, "C04.q")
+    from props.C01 import inst_id_arith
+    inst_id_arith(cx, "C04.r")
 
 
 SELFTEST = [
